@@ -187,9 +187,6 @@ def printTextWF (o : SdlPrintT.OptsT) (s : SchemaD) : Bool :=
   o.descriptions && o.indent.all (fun c => c == 32 || c == 9) &&
   s.types.all (typeOKT s o.indent.length) && s.directives.all (directiveOKT s o.indent.length) &&
   rootOKT s.query && rootOKT s.mutation && rootOKT s.subscription &&
-  (!s.types.isEmpty || !s.directives.isEmpty || SdlPrint.needsSchemaBlock s) &&
-  -- since fix H9 a schema WITHOUT any root but with a type named Query/Mutation/Subscription needs the block, which
-  -- would then be printed with no operation (`schema {}` does not parse): a written block lists an operation
-  (!SdlPrint.needsSchemaBlock s || !(SdlPrint.rootOps s).isEmpty)
+  (!s.types.isEmpty || !s.directives.isEmpty || SdlPrint.needsSchemaBlock s)
 
 end PyGql.SdlText
